@@ -163,6 +163,25 @@ class LifecycleMonitor:
 
     def match_end(self, c, kind, exchange, symbol, candle):
         self.sync(c, 'match-end')
+        self.phase_seq = c.seq
+
+    def market_flush_begin(self, c):
+        """the simulators flush pending market orders right after the route loop, in which every symbol's
+        active list is pruned: an order that was already final when the minute's matching ended must be gone"""
+        from jesse.store import store
+        ph = getattr(self, 'phase_seq', None)
+        if ph is None:
+            return
+        reg = c.scratch['registry']
+        for s in self.symbols:
+            for o in store.orders.get_active_orders(self.ex, s):
+                if o.status in FINAL:
+                    r = reg.rec_of(o)
+                    if r is not None and r.final_seq is not None and r.final_seq < ph:
+                        self.v(c, 'final-still-listed', f'C05|final-order-not-pruned-by-the-end-of-the-step|status={o.status}|routes={min(len(self.symbols), 2)}',
+                               {'symbol': s, 'id': r.id})
+                        return
+        c.count('c05_step_end_prune_checks')
 
     def op_end(self, c, op):
         self.sync(c, 'op-end')
